@@ -232,7 +232,7 @@ impl Prop for C20 {
                     1 => "02eN[A-Za-z0-9+/]{0,40}={0,2}".prop_map(Piece::Text),
                     1 => Just(Piece::Empty),
                 ];
-                let frac = || prop_oneof![4 => select(vec![0.0, 0.5, 1.0]), 1 => any_f64()];
+                let frac = || prop_oneof![4 => select(vec![0.0, 0.5, 1.0]), 1 => select(vec![-0.0, f64::from_bits(1), 1.0000000000000002, -f64::from_bits(1)]), 1 => any_f64()];
                 (
                     proptest::collection::vec(piece, 0..=4),
                     prop_oneof![6 => Just(0u8), 1 => Just(1u8)],
